@@ -314,7 +314,7 @@ pub(crate) fn run(replay: Option<&str>) -> Report {
         rep.evaluations = 1;
         return rep;
     }
-    let depth = if rep.thorough() { 30 } else { 6 };
+    let depth = if rep.thorough() { 30 } else { 7 };
     rep.rule = format!("explicit-state BFS depth {depth} over the real TableManager (2 shards; insert/remove from 2 peers + local, session down with stale/drop families, reconnect with a new Source, stale purge, LLGR mark (restale_llgr + drop_no_llgr) and purge, next-hop validity flips) observed through a registered peer channel; fold of the delivered NlriChange stream (best_changed / any_changed consumers) == collect_loc_rib_paths after every step");
     bfs::bfs(&m, &BfsCfg { max_depth: depth, max_secs: if rep.thorough() { 900 } else { 30 }, ..Default::default() }, &mut rep);
     rep
